@@ -247,6 +247,15 @@ def seipdv1(ctx, P):
             ok, wit = must_pass(b, [i], sw)
             ctx.check(P + ':v1:fill_data:release-guarded:%d' % k, 'R-dom', 'a store to data_available is control-dependent on the is_last_read test',
                       ok and bool(sw), function=b.path, site=site(b, i), witness=fmt_path(b, wit) if wit else None)
+        # after the source was read, fill_data may only report `is_last_read` as computed from the read (or fail): a constant
+        # `Ok(false)` after a read would keep the decryptor in Data forever and the MDC would never be compared
+        reads = b.calls(r'fill_buffer_bytes$|fill_buffer$')
+        after = b.reach_from([t['t'] for i, t in reads if t['t'] is not None])
+        false_exits = [i for i, k, s in b.stmts(lambda s: s['d']['l'] == 0 and s['r']['k'] == 'agg' and s['r'].get('v') == 'Ok'
+                                                 and s['r']['o'] and 'k' in s['r']['o'][0] and s['r']['o'][0]['k'].get('v') == 0)]
+        late = [i for i in false_exits if i in after]
+        ctx.check(P + ':v1:fill_data:no-constant-not-last-after-read', 'R-dom', 'fill_data never returns a constant "not the last read" after it has read from the source (exhaustion always leads to finalize_data)',
+                  bool(reads) and not late, function=b.path, site=site(b, late[0]) if late else None, count=len(false_exits))
         # A5 hold-back
         c = ctx.f.consts.get('crypto::sym::decryptor::MDC_LEN')
         ctx.check(P + ':v1:mdc-len-22', 'R-table', 'MDC_LEN == 22 (tag, length, SHA-1)', c is not None and c['v'] == 22, table=c and c['v'])
